@@ -23,7 +23,7 @@ struct tree {
     int nchild;
     struct tree *child[MAXNODES];
 };
-static const char *atoms_sym[3] = { "a", "foo-1", "+" };
+static const char *atoms_sym[3] = { "a", "foo-1", "+" }; /* the first one is exchanged by the symbol-character sweep */
 static const uint64_t atoms_int[4] = { 0, 7, 255, 48879 };
 
 static struct tree pool[64];
@@ -543,6 +543,38 @@ u_special(uint64_t idx, void *arg)
         vh_arena_reset();
         VH_CASE2(1, i);
         expect_integer(ints[i].t, ints[i].v);
+    }
+    /* every character a symbol may start with and continue with (the reader's tables at the pinned commit: letters
+     * and + % | / _ : ; . ! ? $ & = * < > ~ as initials, digits and '-' in addition behind them): alone, doubled,
+     * in front of and behind a letter, followed by -9; as an expression of its own, as first and as middle element
+     * of a list, under all three whitespace policies */
+    {
+        static const char initials[] = "abcdefghijklmnopqrstuvwxyzABCDEFGHIJKLMNOPQRSTUVWXYZ+%|/_:;.!?$&=*<>~";
+        vh_rng sr;
+        vh_unit_rng(&sr, "symchars", 0);
+        const char *keep = atoms_sym[0];
+        for (size_t ci = 0; initials[ci]; ci++)
+            for (int form = 0; form < 5; form++) {
+                char sym[8];
+                const char c = initials[ci];
+                snprintf(sym, sizeof sym, form == 0 ? "%c" : form == 1 ? "%c%c" : form == 2 ? "%ca" : form == 3 ? "a%c" : "%c-9", c, c);
+                atoms_sym[0] = sym;
+                struct tree leaf = { .kind = 0, .atom = 0 }, other = { .kind = 0, .atom = 1 }, num = { .kind = 0, .atom = 4 };
+                struct tree l1 = { .kind = 1, .nchild = 2, .child = { &leaf, &other } };
+                struct tree l2 = { .kind = 1, .nchild = 3, .child = { &other, &leaf, &num } };
+                const struct tree *ts[3] = { &leaf, &l1, &l2 };
+                for (int ti = 0; ti < 3; ti++)
+                    for (int policy = 0; policy < 3; policy++) {
+                        char text[200];
+                        vh_arena_reset();
+                        VH_CASE4(6, ci, form, ti * 3 + policy);
+                        size_t lead = policy == 0 ? 0 : ws(text, policy, &sr, 0);
+                        size_t len = lead + render(ts[ti], text + lead, policy, 0, &sr);
+                        parse_expect_tree(text, len, len, ts[ti], "gen=symbol-characters");
+                    }
+                VH_COUNT("special: every symbol character");
+            }
+        atoms_sym[0] = keep;
     }
     /* integers written with leading zeros, in fields of 19..1000 digits (a fixed-width "%032llu" or "#x%040llX"
      * rendering): the value is that of the digits, however many zeros stand in front */
